@@ -405,6 +405,42 @@ func C16(ctx *core.Ctx) {
 				}
 			}
 			ctx.Check(len(bad) == 0, "C16.R6", ssax.Name(cl)+" › argument/result slices are allocated per invocation", fnPos(r, cl), "make inside the closure", sprintf("the per-call handler writes storage shared by all calls of the method (%v): overlapping calls, or a middleware that keeps the results of one call, see another call's values", bad))
+			// the results the chain sees are exactly what the handler returned: each element of the returned
+			// slice is the Interface() of a return value, nothing rewrites or inspects them afterwards
+			var resSlice ssa.Value
+			for _, vs := range ReturnedValues(cl) {
+				for _, v := range vs {
+					if _, isSl := v.Type().Underlying().(*types.Slice); isSl {
+						resSlice = ssax.Strip(v)
+					}
+				}
+			}
+			if resSlice != nil {
+				odd := ""
+				ssax.Instrs(cl, func(in ssa.Instruction) {
+					st, isSt := in.(*ssa.Store)
+					if !isSt {
+						return
+					}
+					ia, isIA := st.Addr.(*ssa.IndexAddr)
+					if !isIA || ssax.Strip(ia.X) != resSlice {
+						return
+					}
+					v := ssax.Strip(st.Val)
+					if c, isC := CallValue(v); !isC || c.FullName() != "(reflect.Value).Interface" {
+						odd = r.IPos(in) + ": " + st.String()
+					}
+				})
+				// reflection on the results after the call (Value.IsNil & co. panic for value kinds)
+				for _, c := range ssax.Calls(cl) {
+					switch c.FullName() {
+					case "(reflect.Value).IsNil", "(reflect.Value).Elem", "(reflect.Value).Pointer":
+						odd = r.IPos(c.Instr) + ": " + c.FullName() + " on a result"
+					}
+				}
+				ctx.Check(odd == "", "C16.R6", ssax.Name(cl)+" › results are handed on exactly as the handler returned them", fnPos(r, cl), "results[i] = returnValues[i].Interface() and nothing else",
+					"the innermost handler rewrites or inspects the results after the real handler ran ("+odd+"): a handler error of a value kind makes reflect panic after the handler's effects happened, or an error is turned into success — no middleware sees what the handler returned")
+			}
 		}
 	}
 }
